@@ -42,8 +42,10 @@ fi
 case "$ID" in C10|C11) N=${VERIF_MIRI_CASES:-32};; *) N=${VERIF_MIRI_CASES:-16};; esac
 D=$(mktemp -d /dev/shm/lvh-miri.XXXXXX)
 export MIRIFLAGS="-Zmiri-disable-isolation -Zmiri-deterministic-floats"
-if cargo +nightly miri run --offline --target-dir target-miri -- one "$ID" --tier quick --seed "$SEED" --gen miri-sample --n 0 --out "$D/warm.json" >"$D/warm.log" 2>&1; then
-  seq 1 $((N-1)) | xargs -P 16 -I{} sh -c "cargo +nightly miri run --offline --target-dir target-miri -- one $ID --tier quick --seed $SEED --gen miri-sample --n {} --out $D/c{}.json >$D/c{}.log 2>&1; echo \$? >$D/c{}.rc"
+# every interpreted case has a wall-clock limit (default 10 min): a case that exceeds it is counted as not completed (INCONCLUSIVE), never as a violation
+MT=${VERIF_MIRI_CASE_TIMEOUT:-600}
+if timeout $((MT*2)) cargo +nightly miri run --offline --target-dir target-miri -- one "$ID" --tier quick --seed "$SEED" --gen miri-sample --n 0 --out "$D/warm.json" >"$D/warm.log" 2>&1; then
+  seq 1 $((N-1)) | xargs -P 16 -I{} sh -c "timeout $MT cargo +nightly miri run --offline --target-dir target-miri -- one $ID --tier quick --seed $SEED --gen miri-sample --n {} --out $D/c{}.json >$D/c{}.log 2>&1; echo \$? >$D/c{}.rc"
   ok=1; ub=0; viol=0; evals=0
   for f in "$D"/*.json; do
     e=$(jq '.evaluations' "$f" 2>/dev/null || echo 0); evals=$((evals+e))
